@@ -84,6 +84,15 @@ AddTab(n, f, k) ==
 \* the number of tables from f to the last one, 2^(2^n) - f, as a set of bit positions (bit 2^n for f = 0)
 CountFrom(n, f) == IF f = {} THEN {2^n} ELSE Succ(n, Dom(n) \ f).on
 
+\* The iterator all_functions(n) as an object: [cur, ok] = the next item and whether there is one.
+\* nth(k): the item k places ahead, or none - and the iterator exhausted - when fewer than k + 1 are left.
+IterInit == [cur |-> {}, ok |-> TRUE]
+IterNth(n, st, k) ==     \* [cur, ok, some, item]
+  IF ~st.ok THEN [cur |-> st.cur, ok |-> FALSE, some |-> FALSE, item |-> {}]
+  ELSE LET a == AddTab(n, st.cur, k) IN
+       IF ~a.ok THEN [cur |-> {}, ok |-> FALSE, some |-> FALSE, item |-> {}]
+       ELSE LET s == Succ(n, a.on) IN [cur |-> s.on, ok |-> s.ok, some |-> TRUE, item |-> a.on]
+
 \* Minimum of a non-empty set of functions in the numeric order (radix descent)
 RECURSIVE MinByBit(_, _)
 MinByBit(S, b) ==
